@@ -426,6 +426,109 @@ fn rawmode(c: &Value) -> Value {
     r.unwrap_or_else(|e| json!({"status":"panic","problems":[panic_msg(e)]}))
 }
 
+/// C10 on the implementation: mutate an accepted text into rejected ones and check the error values.
+fn check_error(d: &dyn sqlparser::dialect::Dialect, sql: &str) -> Option<String> {
+    use sqlparser::parser::ParserError;
+    let r1 = parse_opts(d, sql, true, false, None);
+    let r2 = parse_opts(d, sql, true, false, None);
+    let e = match (&r1, &r2) {
+        (Err(a), Err(b)) => { if a != b { return Some(format!("same input, different errors: {a} / {b}")); } a.clone() }
+        (Ok(a), Ok(b)) => { if a != b { return Some("same input, different trees".into()); } return None; }
+        _ => return Some("same input accepted once and rejected once".into()),
+    };
+    let lexed = tokenize_loc(d, sql, true);
+    let chars: Vec<char> = sql.chars().collect();
+    // positions of every character (and one past the end)
+    let mut charpos: Vec<(u64, u64)> = vec![];
+    let (mut l, mut c) = (1u64, 1u64);
+    for ch in &chars { charpos.push((l, c)); if *ch == '\n' { l += 1; c = 1; } else { c += 1; } }
+    charpos.push((l, c));
+    let msg = match &e { ParserError::TokenizerError(m) | ParserError::ParserError(m) => m.clone(), ParserError::RecursionLimitExceeded => String::new() };
+    // trailing " at Line: l, Column: c"
+    let mut pos: Option<(u64, u64)> = None;
+    let mut head = msg.as_str();
+    if let Some(i) = msg.rfind(" at Line: ") {
+        let tail = &msg[i + 10..];
+        let parts: Vec<&str> = tail.split(", Column: ").collect();
+        if parts.len() == 2 {
+            if let (Ok(a), Ok(b)) = (parts[0].parse::<u64>(), parts[1].parse::<u64>()) { pos = Some((a, b)); head = &msg[..i]; }
+        }
+    }
+    match (&e, &lexed) {
+        (ParserError::TokenizerError(_), Ok(_)) => return Some(format!("lexical error kind for an input that tokenizes: {msg}")),
+        (ParserError::ParserError(_), Err(te)) => return Some(format!("syntactic error kind {msg:?} although tokenizing fails with {te}")),
+        (ParserError::RecursionLimitExceeded, Err(_)) => return Some("recursion-limit error although tokenizing fails".into()),
+        _ => {}
+    }
+    match &e {
+        ParserError::TokenizerError(_) => {
+            match pos { Some(p) => if !charpos.contains(&p) { return Some(format!("lexical error position {p:?} is not a character position of the input: {msg}")); },
+                        None => return Some(format!("lexical error without position: {msg}")) }
+        }
+        ParserError::ParserError(_) => {
+            let toks = lexed.unwrap();
+            if let Some(p) = pos {
+                let hit = toks.iter().find(|t| (t.location.line, t.location.column) == p);
+                match hit {
+                    None => return Some(format!("error position {p:?} is not the start of a token: {msg}")),
+                    Some(t) => {
+                        if let Some(i) = head.rfind(", found: ") {
+                            if head.starts_with("Expected: ") {
+                                let found = &head[i + 9..];
+                                if found != t.token.to_string() { return Some(format!("message says found {found:?} but the token at {p:?} is {:?}", t.token.to_string())); }
+                            }
+                        }
+                    }
+                }
+            } else if head.starts_with("Expected: ") && head.contains(", found: ") && !head.ends_with(", found: EOF") {
+                // a found-token message without a position is only legitimate at end of input
+                return Some(format!("found-token message without position: {msg}"));
+            }
+            if head.ends_with(", found: EOF") && pos.is_some() { return Some(format!("end-of-input error carries a position: {msg}")); }
+        }
+        ParserError::RecursionLimitExceeded => {}
+    }
+    None
+}
+
+fn errprop(c: &Value) -> Value {
+    let d = dialect_by_name(c["dialect"].as_str().unwrap());
+    let sql = c["sql"].as_str().unwrap();
+    let seed = c["seed"].as_u64().unwrap_or(1);
+    let n = c["mutants"].as_u64().unwrap_or(8);
+    let r = std::panic::catch_unwind(std::panic::AssertUnwindSafe(|| {
+        let toks = match tokenize_loc(d.as_ref(), sql, true) { Ok(t) => t, Err(_) => return json!({"status":"skip"}) };
+        let chars: Vec<char> = sql.chars().collect();
+        let offs = token_offsets(sql, &toks);
+        for i in 0..toks.len() { if offs[i] == usize::MAX || offs[i] >= offs[i+1] || offs[i+1] > chars.len() { return json!({"status":"skip"}); } }
+        let slice = |i: usize| -> String { chars[offs[i]..offs[i + 1]].iter().collect() };
+        let nt = toks.len();
+        if nt == 0 { return json!({"status":"skip"}); }
+        let mut rng = Rng::new(seed);
+        let subst = ["SELECT", "FROM", ")", "(", ",", "'x", "1", "AND", ";", "\"q", "/*", "$a$", "@", "U&'\\00zz'", "E'\\", "..", "NOT", "BY"];
+        let (mut rejected, mut accepted) = (0, 0);
+        for k in 0..n {
+            let kind = if k == 0 { 0 } else { rng.below(4) };
+            let i = rng.below(nt as u64) as usize;
+            let mut parts: Vec<String> = (0..nt).map(slice).collect();
+            match kind {
+                0 => { parts.truncate(i.max(1)); }
+                1 => { parts.remove(i); }
+                2 => { let x = parts[i].clone(); parts.insert(i, x); parts.insert(i + 1, " ".into()); }
+                _ => { parts[i] = subst[rng.below(subst.len() as u64) as usize].to_string(); }
+            }
+            let variant: String = parts.concat();
+            let ok = parse_opts(d.as_ref(), &variant, true, false, None).is_ok();
+            if ok { accepted += 1; } else { rejected += 1; }
+            if let Some(p) = check_error(d.as_ref(), &variant) {
+                return json!({"status":"bad","variant":variant,"problem":p});
+            }
+        }
+        json!({"status":"ok","rejected":rejected,"accepted":accepted})
+    }));
+    r.unwrap_or_else(|e| json!({"status":"panic","problem":panic_msg(e)}))
+}
+
 fn lex(c: &Value) -> Value {
     let d = dialect_by_name(c["dialect"].as_str().unwrap());
     lex_outcome(d.as_ref(), c["sql"].as_str().unwrap(), c["unescape"].as_bool().unwrap_or(true))
@@ -442,6 +545,7 @@ fn main() {
         "lexprop" => for_each_case(lexprop),
         "literal" => for_each_case(literal),
         "rawmode" => for_each_case(rawmode),
+        "errprop" => for_each_case(errprop),
         "wsvariant" => for_each_case(wsvariant),
         _ => {
             eprintln!("usage: drive make_word < cases.jsonl");
